@@ -703,6 +703,9 @@ func main() {
 		if *propFlag == "C08" && !c08[p.name] {
 			continue
 		}
+		if *propFlag == "C18" && p.name != "mark-unmark-in-pruned-real-chain" {
+			continue // C18: proofs for blocks of the real chain after pruned history was brought back
+		}
 		t0 := time.Now()
 		r := p.f(thorough)
 		for i := range r.vs {
@@ -725,7 +728,7 @@ func main() {
 		total.samples = total.samples[:14]
 	}
 	level := "exploration"
-	if *propFlag == "C08" {
+	if *propFlag == "C08" || *propFlag == "C18" {
 		level = "model_checking" // merged into the hdrmc record of C08, whose level is the one claimed
 	}
 	ev := &mc.Evidence{PropertyID: *propFlag, Tier: *tier, Level: level,
